@@ -59,6 +59,21 @@ fn main() {
             libc::setrlimit(libc::RLIMIT_NOFILE, &rl);
         }
     }
+    // descriptor numbers 0..2 must be occupied, so that lowest-free allocation never hands them to a
+    // run by accident (C12 frees number 0 deliberately, one run at a time)
+    #[cfg(not(miri))]
+    // SAFETY: plain fcntl/open on the standard descriptor numbers at start-up, single-threaded.
+    unsafe {
+        for fd in 0..3 {
+            if libc::fcntl(fd, libc::F_GETFD) == -1 {
+                let n = libc::open(b"/dev/null\0".as_ptr() as *const libc::c_char, libc::O_RDWR);
+                if n >= 0 && n != fd {
+                    libc::dup2(n, fd);
+                    libc::close(n);
+                }
+            }
+        }
+    }
     let args: Vec<String> = std::env::args().collect();
     let cmd = args.get(1).map(|s| s.as_str()).unwrap_or("");
     let verif_dir = arg(&args, "--verif-dir").unwrap_or_else(|| "/verif".to_string());
@@ -72,14 +87,6 @@ fn main() {
                     std::process::exit(2);
                 }
             };
-            if pid == "C12" {
-                // let descriptor number 0 be available to the kernel's lowest-free allocation
-                // SAFETY: closing stdin, which this program never reads.
-                #[cfg(not(miri))]
-                unsafe {
-                    libc::close(0);
-                }
-            }
             let tier = match arg(&args, "--tier").or_else(|| std::env::var("VERIF_TIER").ok()).as_deref() {
                 Some("thorough") => Tier::Thorough,
                 _ => Tier::Quick,
